@@ -376,8 +376,10 @@ package playlist
 //@   ensures result1 == nil ==> result0 != nil
 //@ end
 
+// C14: the decoded date-time is the parsed one, zone included (nothing is normalised away)
 //@ func parseTime
-//@   props C15
+//@   props C14 C15
+//@   ensures result1 == nil ==> (calls("time.Parse") >= 1 && result0 == callres("time.Parse", calls("time.Parse") - 1))
 //@ end
 
 // C14: a new EXT-X-KEY tag is written exactly when the key differs from the previous segment's in any
